@@ -180,8 +180,9 @@ def make_namespace(ns, route, schema, kwargs, matrix_type):
         return dendropy.TaxonNamespace(ns["labels"])
     tns = dendropy.TaxonNamespace()
     try:
-        call_route(route, ns["text"], schema, kwargs, matrix_type, tns)
-    except Exception:
+        # (under the step budget as well: the first read is library code like any other)
+        budget.run(lambda: call_route(route, ns["text"], schema, kwargs, matrix_type, tns), step_limit(ns["text"]))
+    except (Exception, budget.HangDetected):
         return None
     return tns
 
